@@ -15,24 +15,32 @@ def _check(val, assumptions):
     return True
 
 
+def _nodes(c):
+    return list(c.graph._node)  # read off the raw graph: the oracle must not depend on the circuit class's own queries
+
+
+def _startpoints(c):
+    return sorted(n for n, a in c.graph._node.items() if a.get("type") in ("input", "bb_output"))
+
+
 def ref_solve(c, assumptions=None):
     for k in (assumptions or {}):
-        if k not in c:
+        if k not in c.graph._node:
             raise ModelRaise("ValueError", f"Node '{k}' in assumptions is not in circuit")
     fr = free_nodes(c)
     for bits in itertools.product([False, True], repeat=len(fr)):
         val = simulate(c, dict(zip(fr, bits)))
         if _check(val, assumptions):
-            return {n: bool(val[n]) for n in c.nodes()}
+            return {n: bool(val[n]) for n in _nodes(c)}
     return False
 
 
 def ref_model_count(c, assumptions=None):
     for k in (assumptions or {}):
-        if k not in c:
+        if k not in c.graph._node:
             raise ModelRaise("ValueError", f"Node '{k}' in assumptions is not in circuit")
     fr = free_nodes(c)
-    sp = sorted(c.startpoints())
+    sp = _startpoints(c)
     seen = set()
     for bits in itertools.product([False, True], repeat=len(fr)):
         a = dict(zip(fr, bits))
